@@ -44,6 +44,18 @@ MUTANTS = [
     ("C14", "norm_axis0", G + "geometric/multi_image.py", "out.append(0, 0, norm(n_lead_axes + self.D, image_block), axis=n_lead_axes - 1)", "out.append(0, 0, norm(n_lead_axes + self.D, image_block), axis=0)", "norms concatenated on the batch axis"),
     ("C14", "avgpool_restore", G + "geometric/multi_image.py", "img_pooled.reshape((image_block.shape[:n_leading_axes] + img_pooled.shape[1:]))", "jnp.moveaxis(img_pooled.reshape((image_block.shape[:n_leading_axes][::-1] + img_pooled.shape[1:])), 0, n_leading_axes - 1) if n_leading_axes == 2 else img_pooled.reshape((image_block.shape[:n_leading_axes] + img_pooled.shape[1:]))", "average_pool restores two leading axes transposed"),
     ("C14", "collective", G + "ml/layers.py", "                mean_vec = jnp.mean(image_block, axis=tuple(range(1, 1 + self.D)), keepdims=True)\n", "                mean_vec = jax.lax.pmean(jnp.mean(image_block, axis=tuple(range(1, 1 + self.D)), keepdims=True), \"batch\") if self.eps < 0 else jnp.mean(image_block, axis=tuple(range(1, 1 + self.D)), keepdims=True)\n", "a cross-batch collective inside GroupNorm"),
+    ("C04", "same_ignores_dilation", G + "geometric/functional_geometric_image.py", "            return (((M - 1) // 2) * dilation, ((M - 1) // 2) * dilation)", "            return (((M - 1) // 2) * dilation, ((M - 1) // 2) * (dilation if M > 3 else 1))", "SAME padding one-sided w.r.t. dilation for M=3"),
+    ("C04", "int_padding_one_side", G + "geometric/functional_geometric_image.py", "padding_literal = ((padding, padding),) * D", "padding_literal = ((padding, padding),) * (D - 1) + ((padding, 0 if padding > 1 else padding),)", "integer padding >1 applied to one side of the last axis"),
+    ("C04", "contract_last_axes", G + "geometric/functional_geometric_image.py", "return jnp.sum(convolved_img, axis=range(2 + D, 2 + D + img_k))", "return jnp.sum(convolved_img, axis=range(convolved_img.ndim - img_k, convolved_img.ndim))", "fused contraction sums the last instead of the first tensor axes"),
+    ("C04", "drop_lhs_dilation", G + "geometric/functional_geometric_image.py", "        lhs_dilation=lhs_dilation,\n        rhs_dilation=rhs_dilation,\n        dimension_numbers", "        lhs_dilation=None if (lhs_dilation is not None and len(set(lhs_dilation)) > 1) else lhs_dilation,\n        rhs_dilation=rhs_dilation,\n        dimension_numbers", "anisotropic image dilation silently dropped"),
+    ("C04", "torus_flags_reversed", G + "geometric/functional_geometric_image.py", "zipped_dims = zip(filter_spatial_dims, rhs_dilation, is_torus)\n    torus_padding", "zipped_dims = zip(filter_spatial_dims, rhs_dilation, tuple(reversed(is_torus)))\n    torus_padding", "wrap padding uses the reversed flag tuple"),
+    ("C04", "channel_major_features", G + "geometric/functional_geometric_image.py", "    img_formatted = jnp.moveaxis(img_expanded, 1, -1)\n", "    img_formatted = jnp.moveaxis(img_expanded, 1, -1) if in_c != 3 else jnp.moveaxis(img_expanded, 1, 1 + D)\n", "in_c-major feature layout for in_c == 3 (components mix)"),
+    ("C04", "avgpool_norm", G + "geometric/functional_geometric_image.py", "filter_data = (1 / (patch_len**D)) * jnp.ones((1, 1) + (patch_len,) * D)", "filter_data = (1 / (patch_len**2)) * jnp.ones((1, 1) + (patch_len,) * D)", "average pool normalised by patch_len**2 (wrong in 3D)"),
+    ("C11", "bias_raw", G + "ml/layers.py", "        self.use_bias = use_bias  # the normalized setting, True has become \"auto\"\n", "", "the original defect: raw use_bias stored"),
+    ("C11", "wrong_filter_parity", G + "ml/layers.py", "            for (out_k, out_p), weight_block in weights[(in_k, in_p)].items():\n                filter_key = (in_k + out_k, (in_p + out_p) % 2)\n\n                # (out_c,in_c,num_inv_filters)", "            for (out_k, out_p), weight_block in weights[(in_k, in_p)].items():\n                filter_key = (in_k + out_k, (in_p + out_p) % 2 if in_k + out_k < 2 else in_p)\n\n                # (out_c,in_c,num_inv_filters)", "filter parity ignores the target parity for k>=2 filters"),
+    ("C11", "bias_on_vectors", G + "ml/layers.py", "if (k, p) == (0, 0) and (self.use_bias == \"scalar\" or self.use_bias == \"auto\"):", "if k == 0 and (self.use_bias == \"scalar\" or self.use_bias == \"auto\"):", "additive bias also on pseudo-scalars"),
+    ("C11", "mean_over_channels", G + "ml/layers.py", "image, axis=tuple(range(1, 1 + self.invariant_filters.D)), keepdims=True", "image, axis=tuple(range(0, self.invariant_filters.D)), keepdims=True", "mean taken over channel and all but the last spatial axis"),
+    ("C11", "skip_target", G + "ml/layers.py", "                if (out_k, out_p) in out:  # it already has that key\n                    out[(out_k, out_p)] = convolve_contracted_imgs + out[(out_k, out_p)]", "                if (out_k, out_p) in out:  # it already has that key\n                    out[(out_k, out_p)] = convolve_contracted_imgs if in_k > out_k else convolve_contracted_imgs + out[(out_k, out_p)]", "accumulation over input types overwritten when in_k > out_k"),
     ("C19", "le", G + "ml/stopping_conditions.py", "if train_loss < (self.best_train_loss - self.min_delta):", "if train_loss <= (self.best_train_loss - self.min_delta):", "non-strict improvement test"),
     ("C19", "ge_patience", G + "ml/stopping_conditions.py", "        return self.epochs_since_best > self.patience\n\n\nclass ValLoss", "        return self.epochs_since_best >= self.patience\n\n\nclass ValLoss", "stops one epoch early"),
     ("C19", "no_reset", G + "ml/stopping_conditions.py", "            self.best_model = model\n            self.epochs_since_best = 0\n\n            if self.verbose >= 1:\n                self.log_status(current_epoch, train_loss, val_loss, epoch_time)\n        else:\n            self.epochs_since_best += 1\n\n        return self.epochs_since_best > self.patience\n\n\nclass ValLoss", "            self.best_model = model\n\n            if self.verbose >= 1:\n                self.log_status(current_epoch, train_loss, val_loss, epoch_time)\n        else:\n            self.epochs_since_best += 1\n\n        return self.epochs_since_best > self.patience\n\n\nclass ValLoss", "counter not reset on improvement"),
